@@ -185,11 +185,18 @@ def generate_corpus(ctx, rng):
     for _ in range(nrand):
         pq.append((rng.choice([-1, -1, rng.randrange(1, 200)]), rng.randrange(1, 236)))
     codes = sorted({(p + 10) * 1000 + (q + 10) for p, q in pq})
-    for nm in TOYBIG[::-1]:
-        big16 = nm == "E16M3"
-        consts = [("CurveNames", tset([nm])), ("Bases", tset([1] if (ctx.quick and big16) else [1, rng.randrange(2, 4000)])),
-                  ("CH", 256), ("Stride", (8 if big16 else 2) if ctx.quick else 1), ("DN", 1 if ctx.quick else 4)]
-        jobs.append(("EcGenWalk", nm, gen_cfg(consts, ["Closed", "Ladder", "Special", "Cycle", "DblOk"])))
+    def walk(nm, tag, bases, kfrom, kto, stride, dstride):
+        consts = [("CurveNames", tset([nm])), ("Bases", tset(bases)), ("KFrom", kfrom), ("KTo", kto),
+                  ("Stride", stride), ("DStride", dstride)]
+        jobs.append(("EcGenWalk", tag, gen_cfg(consts, ["Closed", "Cycle", "Ladder", "Special", "DblOk"])))
+    if ctx.quick:       # 16-bit group: the first and the last 3000 scalars; 13-bit group: everything, two bases
+        walk("E16M3", "E16M3.lo", [1], 0, 3000, 8, 32)
+        walk("E16M3", "E16M3.hi", [1], 62100, 0, 8, 32)
+        walk("E13", "E13", [1, rng.randrange(2, 4000)], 0, 0, 4, 32)
+    else:
+        walk("E16M3", "E16M3", [1], 0, 0, 2, 64)
+        walk("E16M3", "E16M3.b", [rng.randrange(2, 60000)], 0, 0, 2, 64)
+        walk("E13", "E13", [1, rng.randrange(2, 4000), rng.randrange(4000, 8000)], 0, 0, 1, 16)
     for nm in TOY8:
         jobs.append(("EcGenTwin", nm, gen_cfg([("CurveNames", tset([nm])), ("PQ", tset(codes)), ("Heavy", heavy)],
                                               ["Closed", "Corners", "Diagonal", "AllAgree", "RowSteps"])))
@@ -217,7 +224,7 @@ def generate_corpus(ctx, rng):
             cases = common.tlc_printed_json(r.out)
             if len(cases) != r.distinct or not cases:
                 raise common.Infra("corpus emission lost cases in %s/%s: %d printed vs %d distinct" % (mod, nm, len(cases), r.distinct))
-            results[(mod, nm)] = cases
+            results.setdefault((mod, nm.split(".")[0]), []).extend(cases)
     return results
 
 class Corpus:
@@ -230,6 +237,46 @@ class Corpus:
 def scalar_class(ks):
     return "zero-scalar" if any(k == 0 for k in ks) else "generic"
 
+def walk_rows(ctx, C, name, cv, cs, rng, caps):
+    """EcGenWalk states (one per scalar) -> rows of up to 256 consecutive scalars per base, plus the per-point rows"""
+    hexs = lambda ks: " ".join("%x" % k for k in ks)
+    n = cv["n"]; G = [cv["gx"], cv["gy"]]
+    runs = {}
+    for c in cs: runs.setdefault(c["s"], []).append(c)
+    for sv, sts in sorted(runs.items()):
+        sts.sort(key=lambda c: c["k"])
+        B = sts[0]["base"]
+        i = 0
+        while i < len(sts):
+            j = i
+            while j + 1 < len(sts) and j + 1 - i < 256 and sts[j + 1]["k"] == sts[j]["k"] + 1: j += 1
+            seg = sts[i:j + 1]; i = j + 1
+            ks = [c["k"] for c in seg]; exp = [pt(c["P"]) for c in seg]
+            exc = ks[0] == 0 or ks[-1] >= n - 1
+            if sv == 1:
+                for cap in caps():
+                    C.add("mulbp %s %s %s" % (name, cap, hexs(ks)), exp, op="mulbp", curve=name, cap=cap, P=B, args=ks, exc=exc)
+            for cap in caps():
+                C.add("mul %s %s %s %s" % (name, cap, pt(B), hexs(ks)), exp, op="mul", curve=name, cap=cap, P=B, args=ks, exc=exc)
+        for c in sts:
+            if not c["sel"]: continue
+            P = c["P"]; e = c["ext"]; exc = c["k"] <= 2 or c["k"] >= n - 1
+            d2 = pt(e["dbl"]); ng = e["neg"]
+            C.add("dbl %s D %s" % (name, pt(P)), [d2], op="dbl", curve=name, cap="D", P=P, args=[P], exc=exc)
+            # operands G, P, -P, Inf: P + G, 2P, Inf, P  /  P - G, Inf, 2P, P   (every value emitted by TLC)
+            C.add("add %s D %s %s %s %s inf" % (name, pt(P), pt(G), pt(P), pt(ng)),
+                  [pt(e["next"]), d2, "inf", pt(P)], op="add", curve=name, cap="D", P=P, args=[G, P, ng, []], exc=exc)
+            C.add("sub %s D %s %s %s %s inf" % (name, pt(P), pt(G), pt(P), pt(ng)),
+                  [pt(e["prev"]), "inf", d2, pt(P)], op="sub", curve=name, cap="D", P=P, args=[G, P, ng, []], exc=exc)
+            # 0P, 1P, 2P, (n-1)P = -P, nP = Inf, (n+1)P = P   (EcGenWalk!Special / Cycle)
+            sk = [0, 1, 2, n - 1, n, n + 1]
+            C.add("mul %s D %s %s" % (name, pt(P), hexs(sk)), ["inf", pt(P), d2, pt(ng), "inf", pt(P)],
+                  op="mul", curve=name, cap="D", P=P, args=sk, exc=exc)
+            for j, r in enumerate(e["dbln"]):
+                for kind in "ap":
+                    C.add("dbln %s D %s %d %s" % (name, kind, j + 1, pt(P)), [pt(r)], op="dbln_" + kind,
+                          curve=name, cap="D", P=P, args=[j + 1], exc=exc)
+
 def make_corpus(ctx, cases, rng):
     """rows of TLC -> protocol lines (identical for every build).  cap D for every row; a seeded share of the rows is
     repeated with cap M.  meta['curve'] / meta['exc'] let run_build select rows per build."""
@@ -238,7 +285,11 @@ def make_corpus(ctx, cases, rng):
     def caps(): return "DM" if rng.random() < mshare else "D"
     hexs = lambda ks: " ".join("%x" % k for k in ks)
     for (mod, nm), cs in sorted(cases.items()):
-        for c in cs: C.curves[c["curve"]["name"]] = c["curve"]
+        for c in cs:
+            if c["curve"]: C.curves[c["curve"]["name"]] = c["curve"]
+        if mod == "EcGenWalk":
+            walk_rows(ctx, C, nm, C.curves[nm], cs, rng, caps)
+            continue
         names = [nm] + [a for a, b in ALIAS.items() if b == nm]
         for c in cs:
             cv = c["curve"]; G = [cv["gx"], cv["gy"]]
@@ -274,35 +325,6 @@ def make_corpus(ctx, cases, rng):
                     if (not c["bp"]) or l % 4 == 0 or exc:
                         C.add("twin %s D %s %s %x %s" % (name, pt(P), pt(Q), l, hexs(ks)), exp,
                               op="twin", curve=name, cap="D", P=P, Q=Q, l=l, args=ks, exc=exc)
-                elif mod == "EcGenWalk":
-                    pts = c["pts"]; k0 = c["k0"]; B = c["base"]; ks = [k0 + t for t in range(len(pts))]
-                    exp = [pt(r) for r in pts]; n = cv["n"]
-                    exc = k0 == 0 or k0 + len(pts) > n
-                    if c["s"] == 1:
-                        for cap in caps():
-                            C.add("mulbp %s %s %s" % (name, cap, hexs(ks)), exp, op="mulbp", curve=name, cap=cap, P=B, args=ks, exc=exc)
-                    for cap in caps():
-                        C.add("mul %s %s %s %s" % (name, cap, pt(B), hexs(ks)), exp, op="mul", curve=name, cap=cap, P=B, args=ks, exc=exc)
-                    if c["sel"]:
-                        C.add("dbl %s D %s" % (name, " ".join(exp)), [pt(r) for r in c["dbl"]], op="dbl", curve=name, cap="D",
-                              P=None, args=pts, exc=exc)
-                        # P + G is the next point of the walk, P - G the previous one; -P, 2P: values emitted by TLC
-                        for t in range(1, len(pts) - 1):
-                            if ctx.quick and t % 4: continue
-                            P = pts[t]; ng = c["neg"][t]; d2 = pt(c["dbl"][t])
-                            C.add("add %s D %s %s %s %s inf" % (name, pt(P), pt(G), pt(P), pt(ng)),
-                                  [exp[t + 1], d2, "inf", pt(P)], op="add", curve=name, cap="D", P=P, args=[G, P, ng, []], exc=exc)
-                            C.add("sub %s D %s %s %s %s inf" % (name, pt(P), pt(G), pt(P), pt(ng)),
-                                  [exp[t - 1], "inf", d2, pt(P)], op="sub", curve=name, cap="D", P=P, args=[G, P, ng, []], exc=exc)
-                            # (n-1)P = -P, nP = Inf, (n+1)P = P: EcGenWalk!Special / Cycle
-                            sk = [0, 1, 2, n - 1, n, n + 1]
-                            C.add("mul %s D %s %s" % (name, pt(P), hexs(sk)), ["inf", pt(P), d2, pt(ng), "inf", pt(P)],
-                                  op="mul", curve=name, cap="D", P=P, args=sk, exc=exc)
-                        for t, rows in enumerate(c["dbln"]):
-                            for j, r in enumerate(rows):
-                                for kind in "ap":
-                                    C.add("dbln %s D %s %d %s" % (name, kind, j + 1, pt(pts[t])), [pt(r)], op="dbln_" + kind,
-                                          curve=name, cap="D", P=pts[t], args=[j + 1], exc=exc)
     return C
 
 # ------------------------------------------------------------------ keys
@@ -392,6 +414,18 @@ def select_rows(ctx, cfg, bi, C, rng):
     return sel
 
 MAX_PER_KEY = 3
+def one_line(m, j):
+    """the single-operand form of a row (used to find out which operand of a row kills the driver)"""
+    op = m["op"]; nm = m["curve"]; cap = m["cap"]; a = m["args"][j] if j < len(m["args"]) else None
+    if op in ("add", "sub"): return "%s %s %s %s %s" % (op, nm, cap, pt(m["P"]), pt(a))
+    if op == "dbl": return "dbl %s %s %s" % (nm, cap, pt(a))
+    if op.startswith("dbln"): return "dbln %s %s %s %d %s" % (nm, cap, op[-1], a, pt(m["P"]))
+    if op == "mul": return "mul %s %s %s %x" % (nm, cap, pt(m["P"]), a)
+    if op == "mulbp": return "mulbp %s %s %x" % (nm, cap, a)
+    if op == "twinbp": return "twinbp %s %s %s %x %x" % (nm, cap, pt(m["Q"]), m["l"], a)
+    if op == "twin": return "twin %s %s %s %s %x %x" % (nm, cap, pt(m["P"]), pt(m["Q"]), m["l"], a)
+    raise common.Infra("one_line: unknown op " + op)
+
 def run_rows(cfg, exe, C, sel, fails, stats, per_key):
     by_op = {}
     for i in sel: by_op.setdefault(C.meta[i]["op"], []).append(i)
@@ -407,13 +441,34 @@ def run_rows(cfg, exe, C, sel, fails, stats, per_key):
                 stats["skipped_rows"] += 1; continue
             stats["rows"] += 1
             if isinstance(r, dict):
-                k = r["crash"]
-                j = next((t for t in range(len(exp)) if input_class(m, t) == "generic"), 0)
-                key = fail_key(cfg, m, j, "crash")
-                per_key[key] = per_key.get(key, 0) + 1
-                if per_key[key] <= MAX_PER_KEY:
-                    fails.append((key, "config %s\ncase %s\n%s: %s %s\n%s" % (cfg_name(cfg), C.lines[i][:300], k[0], k[1], k[2], r["raw"][-1500:]),
-                                  {"config": cfg_defs(cfg), "line": C.lines[i][:2000], "crash": list(k)}))
+                # the driver died somewhere inside this row: run its operands one by one to see which
+                stats["crashed_rows"] = stats.get("crashed_rows", 0) + 1
+                if stats["crashed_rows"] > 12: stats["skipped_rows"] += 1; continue
+                sub, _ = drive(exe, [one_line(m, j) for j in range(len(exp))], timeout=600, max_crashes=4)
+                ncr = 0
+                for j, rj in enumerate(sub):
+                    if rj is None: break
+                    if isinstance(rj, dict):
+                        k = rj["crash"]; key = fail_key(cfg, m, j, "crash"); ncr += 1
+                        per_key[key] = per_key.get(key, 0) + 1
+                        if per_key[key] <= MAX_PER_KEY:
+                            fails.append((key, "config %s\ncase %s\n%s: %s %s\n%s" % (cfg_name(cfg), one_line(m, j), k[0], k[1], k[2], rj["raw"][-1500:]),
+                                          {"config": cfg_defs(cfg), "line": one_line(m, j), "crash": list(k)}))
+                    elif rj != [exp[j]]:
+                        g = rj[0] if rj else "?"
+                        key = fail_key(cfg, m, j, ("rc=" + g[3:]) if g.startswith("err") else "wrong-point")
+                        per_key[key] = per_key.get(key, 0) + 1
+                        if per_key[key] <= MAX_PER_KEY:
+                            fails.append((key, "config %s\ncase %s\nexpected %s\ngot      %s" % (cfg_name(cfg), one_line(m, j), exp[j], g),
+                                          {"config": cfg_defs(cfg), "line": one_line(m, j), "expected": exp[j], "got": g}))
+                    else:
+                        stats["evaluations"] += 1
+                if ncr == 0:       # the row as a whole dies but no single operand does (depends on the call history)
+                    k = r["crash"]; key = fail_key(cfg, m, len(exp) - 1, "crash")
+                    per_key[key] = per_key.get(key, 0) + 1
+                    if per_key[key] <= MAX_PER_KEY:
+                        fails.append((key, "config %s\ncase %s\n%s: %s %s\n%s" % (cfg_name(cfg), C.lines[i][:300], k[0], k[1], k[2], r["raw"][-1500:]),
+                                      {"config": cfg_defs(cfg), "line": C.lines[i][:2000], "crash": list(k)}))
                 continue
             if len(r) != len(exp):
                 raise common.Infra("driver answered %d results for %d expected: %s" % (len(r), len(exp), C.lines[i][:200]))
@@ -475,134 +530,120 @@ def modec_ops(exe, cfg, names, rng, ctx):
 
 def hx(v): return "%x" % v
 
-def modec(ctx, cfg, exe, names, rng, nscal):
-    """returns (failures, nevents, stats)"""
+def modec(ctx, cfg, exe, names, rng, full_names, nsample):
+    """drive the library on built-in curves and assemble the events TLC will decide.
+    Ladders of curves in `full_names` are certified step by step; the others at `nsample` seeded positions.
+    returns (failures, events, evmeta, stats)"""
     curves, fails = modec_ops(exe, cfg, names, rng, ctx)
-    stats = {"config": cfg_name(cfg), "curves": len(curves), "events": 0, "validate": {}}
+    stats = {"config": cfg_name(cfg), "curves": len(curves), "events": 0, "validate": {}, "ladder_steps": 0, "ladder_steps_decided": 0}
     for n, f in curves.items():
         stats["validate"][n] = int(f["validate"])
         if int(f["validate"]) != 0:
             fails.append(("ec_curve_validate:built-in:nonzero", "ec_curve_validate(%s) = %s in %s" % (n, f["validate"], cfg_name(cfg)),
                           {"config": cfg_defs(cfg), "curve": n}))
-    # round 1: points k1*G, k2*G through the multipliers + the ladders that certify them
-    plan = []      # (curve, kind, payload)
+    OPN = {"bp": "mult_bp", "unk": "unknown_pt_mult", "twinbp": "twin_mult_bp", "twin": "twin_mult", "lad": "ladder(ec_point_add)"}
+    # round 1: a random multiple P1 = k1*G from the base-point multiplier (certified by its ladder in round 2)
+    info = {}
     l1 = []
-    scal = {}
     for n, f in curves.items():
-        nn = int(f["n"], 16); G = "%s,%s" % (f["gx"], f["gy"])
-        ks = [rng.randrange(3, nn - 1) for _ in range(nscal)]
-        scal[n] = (nn, G, ks)
-        for k in ks:
-            l1.append(("ladder %s D %s %s" % (n, G, hx(k)), n, "lad", G, k))
-            l1.append(("mulbp %s D %s" % (n, hx(k)), n, "bp", G, k))
-            l1.append(("mul %s D %s %s" % (n, G, hx(k)), n, "unk", G, k))
-    r1, _ = drive(exe, [x[0] for x in l1], timeout=900)
-    got = {}
-    for x, r in zip(l1, r1):
-        got[(x[1], x[2], x[4])] = r
-    # round 2: operations on the points obtained
-    l2 = []
-    for n, (nn, G, ks) in scal.items():
-        P = []
-        for k in ks:
-            r = got.get((n, "bp", k))
-            if isinstance(r, list) and r and "," in r[0]: P.append(r[0])
-        if not P: continue
-        P1 = P[0]; P2 = P[-1] if len(P) > 1 else G
-        # exceptional and generic add/sub/dbl
-        for a, b in ((P1, P2), (P1, G), (G, P1), (P1, P1), (P1, "inf"), ("inf", P1), ("inf", "inf"), (G, G)):
+        nn = int(f["n"], 16); G = "%s,%s" % (f["gx"], f["gy"]); k1 = rng.randrange(3, nn - 1)
+        info[n] = (nn, G, k1)
+        l1.append("mulbp %s D %s" % (n, hx(k1)))
+    r1, _ = drive(exe, l1, timeout=900)
+    # round 2
+    l2 = []       # (line, curve, kind, a, b)
+    for (n, (nn, G, k1)), r in zip(info.items(), r1):
+        if isinstance(r, dict):
+            fails.append(("built-in:mult_bp:crash", "config %s curve %s k=%x\n%s" % (cfg_name(cfg), n, k1, r["raw"][-1200:]), {"config": cfg_defs(cfg)})); continue
+        if not r or "," not in r[0]:
+            fails.append(("built-in:mult_bp:rc", "config %s curve %s k=%x -> %s" % (cfg_name(cfg), n, k1, r), {"config": cfg_defs(cfg)})); continue
+        P1 = r[0]
+        for a, b in ((P1, G), (G, P1), (P1, P1), (P1, "inf"), ("inf", P1), ("inf", "inf")):
             l2.append(("add %s D %s %s" % (n, a, b), n, "add", a, b))
             l2.append(("sub %s D %s %s" % (n, a, b), n, "sub", a, b))
         for a in (P1, G, "inf"):
             l2.append(("dbl %s D %s" % (n, a), n, "dbl", a, None))
-        # scalars 0, 1, 2, n-1, n on an arbitrary point and on G, and a random one on P1
-        spec = [0, 1, 2, nn - 1, nn]
-        for k in spec + [rng.randrange(3, nn - 1)]:
-            l2.append(("ladder %s D %s %s" % (n, P1, hx(k)), n, "lad", P1, k))
-            l2.append(("mul %s D %s %s" % (n, P1, hx(k)), n, "unk", P1, k))
-        for k in spec:
-            l2.append(("ladder %s D %s %s" % (n, G, hx(k)), n, "lad", G, k))
-            l2.append(("mulbp %s D %s" % (n, hx(k)), n, "bp", G, k))
-            l2.append(("mul %s M %s %s" % (n, G, hx(k)), n, "unk", G, k))
-        # twin: k*G + l*P1 with ladders already requested for (G, ks[0]) and a fresh one for (P1, l)
-        for (k, l) in ((ks[0], rng.randrange(3, nn - 1)), (0, ks[0]), (ks[0], 0), (nn - 1, 1)):
-            l2.append(("ladder %s D %s %s" % (n, G, hx(k)), n, "lad", G, k))
-            l2.append(("ladder %s D %s %s" % (n, P1, hx(l)), n, "lad", P1, l))
+        kr = rng.randrange(3, nn - 1); lr = rng.randrange(3, nn - 1)
+        lads = set()
+        def lad(Pt, k):
+            if (Pt, k) not in lads:
+                lads.add((Pt, k)); l2.append(("ladder %s D %s %s" % (n, Pt, hx(k)), n, "lad", Pt, k))
+        for k in (k1, 0, 1, 2, nn - 1, nn):                       # base point: fixed-point and unknown-point multiplier
+            lad(G, k)
+            l2.append(("mulbp %s M %s" % (n, hx(k)), n, "bp", G, k))
+            l2.append(("mul %s D %s %s" % (n, G, hx(k)), n, "unk", G, k))
+        for k in (0, 1, 2, nn - 1, nn, kr):                       # arbitrary point
+            lad(P1, k)
+            l2.append(("mul %s M %s %s" % (n, P1, hx(k)), n, "unk", P1, k))
+        for (k, l) in ((k1, lr), (0, kr), (kr, 0), (nn - 1, 1), (1, nn - 1)):     # k*G + l*P1
+            lad(G, k); lad(P1, l)
             l2.append(("twinbp %s M %s %s %s" % (n, P1, hx(l), hx(k)), n, "twinbp", (G, k), (P1, l)))
             l2.append(("twin %s D %s %s %s %s" % (n, G, P1, hx(l), hx(k)), n, "twin", (G, k), (P1, l)))
-    r2, _ = drive(exe, [x[0] for x in l2], timeout=900)
+    r2, _ = drive(exe, [x[0] for x in l2], timeout=1500, max_crashes=40)
+    ladders = {}
     for x, r in zip(l2, r2):
-        if x[2] in ("lad", "bp", "unk"): got[(x[1], x[2], x[3], x[4])] = r
-    # ---- assemble events
-    cidx = {}
-    ev = []
-    def crash_of(r, what, n, line):
-        k = r["crash"]
-        fails.append(("built-in:%s:crash" % what, "config %s curve %s\n%s\n%s: %s\n%s" % (cfg_name(cfg), n, line[:200], k[0], k[1], r["raw"][-1200:]),
-                      {"config": cfg_defs(cfg), "line": line[:1500]}))
+        if x[2] == "lad": ladders[(x[1], x[3], x[4])] = r
+    # ---- events
+    ev = []; evmeta = []; cidx = {}
     for n, f in curves.items():
         ev.append({"op": "curve", "name": n, "p": limbs13(f["p"]), "a": limbs13(f["a"]), "b": limbs13(f["b"]),
                    "n": limbs13(f["n"]), "G": [limbs13(f["gx"]), limbs13(f["gy"])]})
-        cidx[n] = len(ev)
-    evmeta = [None] * len(ev)
+        evmeta.append(None); cidx[n] = len(ev)
     def tok_ok(r): return isinstance(r, list) and all(not t.startswith("err") for t in r)
-    def steps_of(n, Pt, k):
-        r = got.get((n, "lad", Pt, k))
-        if r is None: r = got.get((n, "lad", k)) if Pt == scal[n][1] else None
-        return r
-    # round-1 mul events
-    for n, (nn, G, ks) in scal.items():
-        for k in ks:
-            st = got.get((n, "lad", k)); rb = got.get((n, "bp", k)); ru = got.get((n, "unk", k))
-            for r, w in ((st, "ladder"), (rb, "mult_bp"), (ru, "unknown_pt_mult")):
-                if isinstance(r, dict): crash_of(r, w, n, "k=%x" % k)
-            if not (tok_ok(st) and tok_ok(rb) and tok_ok(ru)):
-                for r, w in ((st, "ladder(ec_point_add)"), (rb, "mult_bp"), (ru, "unknown_pt_mult")):
-                    if isinstance(r, list) and not tok_ok(r):
-                        fails.append(("built-in:%s:rc" % w, "config %s curve %s k=%x -> %s" % (cfg_name(cfg), n, k, r[:3]), {"config": cfg_defs(cfg)}))
-                continue
-            ev.append({"op": "mul", "ci": cidx[n], "P": pt_limbs(G), "k": limbs13(hx(k)), "steps": [pt_limbs(s) for s in st],
-                       "R": [pt_limbs(rb[0]), pt_limbs(ru[0])]})
-            evmeta.append(("mul", n, "mult_bp+unknown_pt_mult", "G", k))
+    def chk_of(n, steps):
+        stats["ladder_steps"] += len(steps)
+        if n in full_names or len(steps) <= nsample:
+            stats["ladder_steps_decided"] += len(steps); return []
+        stats["ladder_steps_decided"] += nsample
+        return sorted(rng.sample(range(1, len(steps) + 1), nsample))
     for x, r in zip(l2, r2):
         line, n, kind = x[0], x[1], x[2]
-        if kind == "lad": continue
-        if isinstance(r, dict):
-            crash_of(r, {"bp": "mult_bp", "unk": "unknown_pt_mult", "twinbp": "twin_mult_bp", "twin": "twin_mult"}.get(kind, kind), n, line); continue
         if r is None: continue
-        if not tok_ok(r):
-            fails.append(("built-in:%s:rc" % kind, "config %s curve %s: %s -> %s" % (cfg_name(cfg), n, line[:160], r[:2]),
+        if isinstance(r, dict):
+            k = r["crash"]
+            fails.append(("built-in:%s:crash" % OPN.get(kind, "ec_point_" + kind),
+                          "config %s curve %s\n%s\n%s: %s\n%s" % (cfg_name(cfg), n, line[:200], k[0], k[1], r["raw"][-1200:]),
                           {"config": cfg_defs(cfg), "line": line[:1500]})); continue
+        if not tok_ok(r):
+            fails.append(("built-in:%s:rc" % OPN.get(kind, "ec_point_" + kind), "config %s curve %s: %s -> %s" % (cfg_name(cfg), n, line[:160], r[:2]),
+                          {"config": cfg_defs(cfg), "line": line[:1500]})); continue
+        if kind == "lad": continue
         if kind in ("add", "sub"):
             ev.append({"op": kind, "ci": cidx[n], "P": pt_limbs(x[3]), "Q": pt_limbs(x[4]), "R": pt_limbs(r[0])})
         elif kind == "dbl":
             ev.append({"op": "dbl", "ci": cidx[n], "P": pt_limbs(x[3]), "R": pt_limbs(r[0])})
         elif kind in ("bp", "unk"):
-            st = got.get((n, "lad", x[3], x[4]))
-            if not tok_ok(st):
-                if isinstance(st, dict): crash_of(st, "ladder", n, line)
-                continue
-            ev.append({"op": "mul", "ci": cidx[n], "P": pt_limbs(x[3]), "k": limbs13(hx(x[4])), "steps": [pt_limbs(s) for s in st],
-                       "R": [pt_limbs(r[0])]})
+            st = ladders.get((n, x[3], x[4]))
+            if not tok_ok(st): continue
+            ev.append({"op": "mul", "ci": cidx[n], "P": pt_limbs(x[3]), "k": limbs13(hx(x[4])), "steps": [pt_limbs(t) for t in st],
+                       "chk": chk_of(n, st), "R": [pt_limbs(r[0])]})
         elif kind in ("twinbp", "twin"):
             (Pa, k), (Qa, l) = x[3], x[4]
-            sp = got.get((n, "lad", Pa, k)); sq = got.get((n, "lad", Qa, l))
+            sp = ladders.get((n, Pa, k)); sq = ladders.get((n, Qa, l))
             if not (tok_ok(sp) and tok_ok(sq)): continue
-            ev.append({"op": "twin", "ci": cidx[n], "P": pt_limbs(Pa), "k": limbs13(hx(k)), "stepsP": [pt_limbs(s) for s in sp],
-                       "Q": pt_limbs(Qa), "l": limbs13(hx(l)), "stepsQ": [pt_limbs(s) for s in sq], "R": [pt_limbs(r[0])]})
-        else: continue
-        evmeta.append((kind, n, line[:300], None, None))
-    stats["events"] = len(ev)
+            ev.append({"op": "twin", "ci": cidx[n], "P": pt_limbs(Pa), "k": limbs13(hx(k)), "stepsP": [pt_limbs(t) for t in sp],
+                       "chkP": chk_of(n, sp), "Q": pt_limbs(Qa), "l": limbs13(hx(l)), "stepsQ": [pt_limbs(t) for t in sq],
+                       "chkQ": chk_of(n, sq), "R": [pt_limbs(r[0])]})
+        evmeta.append((kind, n, line[:300]))
+    stats["events"] = len(ev) - len(curves)
     return fails, ev, evmeta, stats
 
-def validate_events(ctx, cfg, ev, evmeta, d, tag):
-    """TLC decides every event (4 shards, each prefixed with the curve lines)"""
+def ev_cost(e):
+    def c(st, ch): return len(ch) if ch else len(st)
+    if e["op"] == "mul": return 2 + c(e["steps"], e["chk"])
+    if e["op"] == "twin": return 4 + c(e["stepsP"], e["chkP"]) + c(e["stepsQ"], e["chkQ"])
+    return 3
+
+def validate_events(ctx, cfg, ev, evmeta, d, tag, nsh=4):
+    """TLC decides every event (up to nsh single-worker runs; each trace starts with the curve lines)"""
     fails = []
     ncur = sum(1 for e in ev if e["op"] == "curve")
-    head = ev[:ncur]; body = list(zip(ev[ncur:], evmeta[ncur:]))
+    head = ev[:ncur]; body = sorted(zip(ev[ncur:], evmeta[ncur:]), key=lambda em: -ev_cost(em[0]))
     if not body: return fails, 0
-    nsh = min(4, max(1, len(body) // 8))
-    shards = [body[i::nsh] for i in range(nsh)]
+    nsh = min(nsh, max(1, len(body) // 6))
+    shards = [[] for _ in range(nsh)]; load = [0] * nsh
+    for em in body:                                   # greedy balancing by the number of relations to decide
+        t = load.index(min(load)); shards[t].append(em); load[t] += ev_cost(em[0])
     def run(si):
         path = os.path.join(d, "trace_%s_%d.ndjson" % (tag, si))
         with open(path, "w") as f:
@@ -612,14 +653,14 @@ def validate_events(ctx, cfg, ev, evmeta, d, tag):
                     "%s_%d" % (tag, si), env={"TRACE": path}, timeout=1500)
         return si, r
     nval = 0
+    OPN = {"bp": "mult_bp", "unk": "unknown_pt_mult", "twinbp": "twin_mult_bp", "twin": "twin_mult"}
     with ThreadPoolExecutor(max_workers=4) as ex:
         for si, r in ex.map(run, range(nsh)):
             ctx.tlc_stats(r, "EcTrace/%s/shard%d" % (cfg_name(cfg), si))
             if r.rc != 0:
                 raise common.Infra("EcTrace failed (%s): %s\n%s" % (cfg_name(cfg), r.violation, r.out[-2500:]))
             verd = {}
-            for v in common.tlc_printed_json(r.out):
-                verd[v[0]] = v[1]
+            for v in common.tlc_printed_json(r.out): verd[v[0]] = v[1]
             total = ncur + len(shards[si])
             if len(verd) != total:
                 raise common.Infra("EcTrace printed %d verdicts for %d events" % (len(verd), total))
@@ -629,12 +670,9 @@ def validate_events(ctx, cfg, ev, evmeta, d, tag):
             for j, (e, m) in enumerate(shards[si]):
                 v = verd[ncur + 1 + j]; nval += 1
                 if v == "ok": continue
-                what = m[2] if m[0] == "mul" and m[3] == "G" else m[0]
-                opname = {"bp": "mult_bp", "unk": "unknown_pt_mult", "twinbp": "twin_mult_bp", "twin": "twin_mult",
-                          "mul": "mult_bp+unknown_pt_mult"}.get(m[0], "ec_point_" + m[0])
-                key = "built-in:%s:%s" % (opname, v)
+                key = "built-in:%s:%s" % (OPN.get(m[0], "ec_point_" + m[0]), v)
                 fails.append((key, "config %s curve %s: %s\nTLC verdict: %s" % (cfg_name(cfg), m[1], m[2], v),
-                              {"config": cfg_defs(cfg), "curve": m[1], "event": json.dumps(e)[:6000], "verdict": v}))
+                              {"config": cfg_defs(cfg), "curve": m[1], "line": m[2], "event": json.dumps(e)[:6000], "verdict": v}))
     return fails, nval
 
 # ------------------------------------------------------------------ the affine + INTER selection
@@ -713,25 +751,33 @@ def run(ctx):
     if len(names) != 32:
         raise common.Infra("expected 32 built-in curves, driver lists %d" % len(names))
     plan = []
+    full0 = set(rng.sample(names, 2)) if ctx.quick else set(names)      # curves whose ladders are certified step by step
     for bi, (c, exes) in enumerate(builds):
-        if bi == 0: sub = names                                     # the suite's configuration: all 32 curves
+        if bi == 0:
+            sub, full = names, full0                                    # the suite's configuration: all 32 curves
         else:
-            k = 3 if ctx.quick else 6
+            k = 3 if ctx.quick else 5
             sub = sorted({names[(bi * 7 + j * 11) % 32] for j in range(k)}, key=names.index)
-        plan.append((c, exes["asan"] if (bi == 0 or not ctx.quick) else exes["fast"], sub))
+            full = set() if ctx.quick else {sub[bi % len(sub)]}
+        plan.append((c, exes["asan"], sub, full))
     def cjob(p):
-        c, exe, sub = p
+        c, exe, sub, full = p
         r = random.Random("%s/%s/C" % (ctx.seed, cfg_name(c)))
-        return p, modec(ctx, c, exe, sub, r, 1 if ctx.quick else 2)
+        return p, modec(ctx, c, exe, sub, r, full, 4 if ctx.quick else 12)
     with ThreadPoolExecutor(max_workers=4) as ex:
         modec_out = list(ex.map(cjob, plan))
     nval_total = 0; cstats = []
-    for bi, ((c, exe, sub), (fails, ev, evmeta, st)) in enumerate(modec_out):
+    def vjob(a):
+        bi, ((c, exe, sub, full), (fails, ev, evmeta, st)) = a
+        return a, validate_events(ctx, c, ev, evmeta, d, "b%d" % bi, nsh=4 if bi == 0 else (1 if ctx.quick else 2))
+    with ThreadPoolExecutor(max_workers=4) as ex:
+        vout = list(ex.map(vjob, list(enumerate(modec_out))))
+    for (bi, ((c, exe, sub, full), (fails, ev, evmeta, st))), (vf, nval) in vout:
         for f in fails: ctx.fail(*f)
-        vf, nval = validate_events(ctx, c, ev, evmeta, d, "b%d" % bi)
         for f in vf: ctx.fail(*f)
         nval_total += nval; st["validated"] = nval; cstats.append(st)
-        ctx.log("mode C %-66s curves=%d events=%d fails=%d" % (st["config"], st["curves"], nval, len(fails) + len(vf)))
+        ctx.log("mode C %-66s curves=%d events=%d ladder steps decided %d/%d fails=%d" % (st["config"], st["curves"], nval,
+                st["ladder_steps_decided"], st["ladder_steps"], len(fails) + len(vf)))
     # ---- evidence
     ctx.add(traces_validated_against_impl=nval_total)
     ctx.add(distinct_nontrivial=sum(1 for e in C.expect for x in e if x != "inf"))
